@@ -42,7 +42,9 @@ def run(ses):
     jobs.append((job_v3_public_key_ctor, ()))
     jobs += upper.roundtrip_jobs(PUBLIC, ses.tier)
     from .. import coreapi
-    jobs.append((coreapi.job_core_api, ()))        # newtype constructors, builder(), setters, Clone: what the caller writes reaches the entry point unchanged
+    jobs.append((coreapi.job_core_api, ())); jobs.append((coreapi.job_key_ctors, ()))        # newtype constructors, builder(), setters, Clone: what the caller writes reaches the entry point unchanged
+    from .. import kani as _kani
+    jobs.append((_kani.job_le64, ()))        # the PAE length prefix is a summary in the SMT runs: Kani checks le64 itself on the compiled code (all 2^64 inputs)
     run_jobs(ses, jobs)
     ses.trusted_base = TRUSTED
     ses.assumptions = ['private key bytes are valid for the scheme (see trusted_base); public key is the one derived from it',
@@ -51,4 +53,4 @@ def run(ses):
 
 confirm = c01.confirm
 replay = c01.replay
-BASELINE = ['core_api', 'rsa_pool', 'core_builder_reuse']
+BASELINE = ['core_api', 'key_ctor', 'rsa_pool', 'core_builder_reuse']
